@@ -433,6 +433,67 @@ def f_spec_only_rejects(a):
         return canon_exc(e)
 
 
+# ---- C16: value semantics and copies on the real objects
+def _mk(kind, t):
+    if kind == "iban":
+        return IBAN(t, allow_invalid=True)
+    if kind == "bic":
+        return BIC(t, allow_invalid=True)
+    if kind == "bban":
+        return BBAN(t[:2], t[2:])
+    return t
+
+
+def f_spec_value_laws(a):
+    """pairs of objects/strings: ==, !=, <, <=, >, >=, hash and dict lookup are those of the compact strings"""
+    k1, t1, k2, t2 = a[0], dec(a[1]), a[2], dec(a[3])
+    x, y = _mk(k1, t1), _mk(k2, t2)
+    sx, sy = str(x), str(y)
+    checks = {
+        "eq": (x == y) == (sx == sy), "ne": (x != y) == (sx != sy), "lt": (x < y) == (sx < sy),
+        "le": (x <= y) == (sx <= sy), "gt": (x > y) == (sx > sy), "ge": (x >= y) == (sx >= sy),
+        "hash": (sx != sy) or hash(x) == hash(y), "hash-str": hash(x) == hash(sx),
+        "dict": {x: 1}.get(y) == ({sx: 1}.get(sy)), "sorted": [str(v) for v in sorted([x, y])] == sorted([sx, sy]),
+    }
+    bad = [k for k, v in checks.items() if not v]
+    return "OK" if not bad else "DIFFERS " + ",".join(bad)
+
+
+def f_spec_copies(a):
+    import copy
+    import pickle
+    kind, t = a[0], dec(a[1])
+    o = _mk(kind, t)
+
+    def same(c):
+        if type(c) is not type(o) or c != o or str(c) != str(o):
+            return False
+        if getattr(c, "country_code", None) != getattr(o, "country_code", None):
+            return False
+        if kind == "iban":
+            if type(c.bban) is not type(o.bban) or c.bban != o.bban or c.bban.country_code != o.bban.country_code:
+                return False
+            names = FACTS["components"]
+
+            def acc(obj, n):
+                try:
+                    return ("ok", getattr(obj, n))
+                except Exception as e:  # noqa: BLE001
+                    return ("exc", type(e).__name__)
+            if any(acc(c, n) != acc(o, n) for n in names):
+                return False
+        return True
+    bad = []
+    for name, op in (("copy", copy.copy), ("deepcopy", copy.deepcopy), ("pickle", lambda v: pickle.loads(pickle.dumps(v))),
+                     ("pickle0", lambda v: pickle.loads(pickle.dumps(v, protocol=0)))):
+        try:
+            if not same(op(o)):
+                bad.append(name + ":different")
+        except Exception as e:  # noqa: BLE001
+            bad.append(name + ":" + type(e).__name__)
+    return "OK" if not bad else "FAILS " + ",".join(bad)
+
+
 # ---- C13: random generation, instrumented from outside (no hooks in schwifty)
 def _random_run(kind, cc, use_registry, pins, seed):
     """-> (canonical outcome, log) where log = (country idx, bank idx, xeger draws) as the implementation saw them"""
